@@ -607,3 +607,188 @@ Proof.
   - right. unfold all_boards. apply in_concat. exists bs. split; [|exact H2].
     apply in_map_iff. exists (pl, bs). auto.
 Qed.
+
+(* ------------------------------------------------------------ the rendered text *)
+(* the first four lines of the template, then [x] *)
+Definition hdr_then (s pl b x : text) : text :=
+  c_lbr :: (t_env ++ s) ++ c_rbr :: c_nl ::
+  k_platform ++ c_sp :: c_eq :: [c_sp] ++ pl ++ c_nl ::
+  k_board ++ c_sp :: c_eq :: [c_sp] ++ b ++ c_nl ::
+  k_framework ++ c_sp :: c_eq :: [c_sp] ++ t_arduino ++ c_nl :: x.
+
+(* the template regenerated from pio.py is the one these proofs are about *)
+Lemma fill_shape s pl b port l :
+  fill ini_parts s pl b port l =
+  hdr_then s pl b (k_upload_port ++ c_sp :: c_eq :: c_sp :: port ++ c_nl :: c_nl :: l ++ [c_nl]).
+Proof. reflexivity. Qed.
+
+Lemma hdr_then_app s pl b x : hdr_then s pl b x = hdr_then s pl b [] ++ x.
+Proof.
+  unfold hdr_then. cbn [app].
+  repeat (rewrite <- app_assoc; cbn [app]). reflexivity.
+Qed.
+
+Lemma rstrip_cons_r c b : rstrip b <> [] -> rstrip (c :: b) = c :: rstrip b.
+Proof. intro H. cbn [rstrip]. destruct (rstrip b); congruence. Qed.
+
+Lemma rstrip_app_r a b : rstrip b <> [] -> rstrip (a ++ b) = a ++ rstrip b.
+Proof.
+  intro H. induction a as [|c r IH]; [reflexivity|].
+  cbn [app]. rewrite rstrip_cons_r; [rewrite IH; reflexivity|].
+  rewrite IH. destruct r; [exact H|discriminate].
+Qed.
+
+Lemma hdr_then_rstrip s pl b x :
+  rstrip x <> [] -> rstrip (hdr_then s pl b x) = hdr_then s pl b (rstrip x).
+Proof.
+  intro H. rewrite (hdr_then_app s pl b x), (hdr_then_app s pl b (rstrip x)).
+  apply rstrip_app_r. exact H.
+Qed.
+
+Definition st_hdr (s pl b : text) : pstate :=
+  mk_pstate [(t_env ++ s, [(k_platform, [pl]); (k_board, [b]); (k_framework, [t_arduino])])]
+            (Some (t_env ++ s)) (Some k_framework) O.
+
+Lemma value_ok_parts t : value_ok t = true -> no_break t = true /\ no_padding t = true.
+Proof. unfold value_ok. intro H. apply andb_true_iff in H. exact H. Qed.
+
+Lemma read_hdr s pl b x :
+  forallb is_word s = true -> value_ok pl = true -> value_ok b = true ->
+  read_from init_state (hdr_then s pl b x) = read_from (st_hdr s pl b) x.
+Proof.
+  intros Hs Hpl Hb. destruct (word_text_facts s Hs) as [S1 S2].
+  destruct (value_ok_parts pl Hpl) as [P1 P2]. destruct (value_ok_parts b Hb) as [B1 B2].
+  unfold hdr_then.
+  rewrite read_section.
+  - rewrite (read_option _ [] k_platform [c_sp] pl) by (assumption || reflexivity).
+    rewrite (read_option _ _ k_board [c_sp] b) by (assumption || reflexivity).
+    rewrite (read_option _ _ k_framework [c_sp] t_arduino) by reflexivity.
+    reflexivity.
+  - reflexivity.
+  - rewrite forallb_app, S1. reflexivity.
+  - reflexivity.
+  - rewrite no_break_app, S2. reflexivity.
+Qed.
+
+(* the three shapes of the file after PIO_INI.format(...).rstrip() + "\n" *)
+Definition tail_libs (port : text) (u : list text) : text :=
+  k_upload_port ++ c_sp :: c_eq :: [c_sp] ++ port ++ c_nl :: c_nl ::
+  k_lib_deps ++ c_sp :: c_eq :: [] ++ [] ++ c_nl :: cont_lines u.
+
+Definition tail_port (port : text) : text :=
+  k_upload_port ++ c_sp :: c_eq :: [c_sp] ++ port ++ c_nl :: [].
+
+Definition tail_bare : text :=
+  k_upload_port ++ c_sp :: c_eq :: [] ++ [] ++ c_nl :: [].
+
+Lemma render_shape pl b port libs :
+  value_ok port = true -> forallb lib_ok libs = true ->
+  render pl b port libs =
+  hdr_then (sanitize_env_name b) pl b
+    match given_libs libs, port with
+    | _ :: _, _ => tail_libs port (given_libs libs)
+    | [], _ :: _ => tail_port port
+    | [], [] => tail_bare
+    end.
+Proof.
+  intros Hport Hlibs. pose proof (given_libs_real libs Hlibs) as Hu.
+  destruct (value_ok_parts port Hport) as [_ Ppad].
+  unfold render. rewrite fill_shape, format_lib_section_spec.
+  set (s := sanitize_env_name b).
+  destruct (given_libs libs) as [|n r] eqn:Eu.
+  - destruct port as [|c p].
+    + (* no libraries, empty port: the blank after "=" goes too *)
+      rewrite hdr_then_rstrip; [|vm_compute; discriminate].
+      rewrite (hdr_then_app s pl b tail_bare), hdr_then_app, <- app_assoc. reflexivity.
+    + (* no libraries: the file ends after the port *)
+      assert (k_upload_port ++ c_sp :: c_eq :: c_sp :: (c :: p) ++ c_nl :: c_nl :: [] ++ [c_nl] =
+              (k_upload_port ++ c_sp :: c_eq :: c_sp :: c :: p) ++ [c_nl; c_nl; c_nl]) as ->.
+      { rewrite <- app_assoc. reflexivity. }
+      assert (last_nonspace (k_upload_port ++ c_sp :: c_eq :: c_sp :: c :: p) = true) as L.
+      { change (k_upload_port ++ c_sp :: c_eq :: c_sp :: c :: p)
+          with (k_upload_port ++ [c_sp; c_eq; c_sp] ++ c :: p).
+        apply last_nonspace_app, last_nonspace_app.
+        unfold no_padding in Ppad. apply andb_true_iff in Ppad as [_ Ppad]. exact Ppad. }
+      rewrite hdr_then_rstrip; rewrite rstrip_keep by (exact L || reflexivity).
+      * rewrite (hdr_then_app s pl b (tail_port (c :: p))), hdr_then_app, <- app_assoc.
+        reflexivity.
+      * destruct k_upload_port; discriminate.
+  - (* libraries: only the final newline is stripped, and put back *)
+    set (u := n :: r) in *.
+    set (l := t_lib_deps_eq ++ concat (map (fun n => c_nl :: c_sp :: c_sp :: n) u)).
+    assert (last_nonspace l = true) as Ll.
+    { apply last_nonspace_concat; [reflexivity|].
+      intros m Hm. rewrite forallb_forall in Hu. destruct (real_lib_facts m (Hu m Hm)) as (_ & _ & _ & Lm).
+      apply (last_nonspace_app [c_nl; c_sp; c_sp] m Lm). }
+    assert (k_upload_port ++ c_sp :: c_eq :: c_sp :: port ++ c_nl :: c_nl :: l ++ [c_nl] =
+            (k_upload_port ++ c_sp :: c_eq :: c_sp :: port ++ c_nl :: c_nl :: l) ++ [c_nl]) as E1.
+    { rewrite <- app_assoc. cbn [app]. rewrite <- app_assoc. reflexivity. }
+    assert (last_nonspace (k_upload_port ++ c_sp :: c_eq :: c_sp :: port ++ c_nl :: c_nl :: l) = true) as L.
+    { change (k_upload_port ++ c_sp :: c_eq :: c_sp :: port ++ c_nl :: c_nl :: l)
+        with (k_upload_port ++ [c_sp; c_eq; c_sp] ++ port ++ [c_nl; c_nl] ++ l).
+      do 4 apply last_nonspace_app. exact Ll. }
+    rewrite hdr_then_rstrip; rewrite E1, rstrip_keep by (exact L || reflexivity).
+    + rewrite (hdr_then_app s pl b (tail_libs port u)), hdr_then_app, <- app_assoc.
+      f_equal. rewrite <- E1. unfold tail_libs, l.
+      rewrite <- app_assoc, lib_tail. reflexivity.
+    + destruct k_upload_port; discriminate.
+Qed.
+
+(* ------------------------------------------------------------ the round trip *)
+Lemma ini_read_read t :
+  ini_read t = match read_from init_state t with Some st => Some (finish st) | None => None end.
+Proof. reflexivity. Qed.
+
+Definition join_value (kv : text * list text) : text * text := (fst kv, rstrip (join [c_nl] (snd kv))).
+
+Lemma finish_hdr e pl b more c o i :
+  no_padding pl = true -> no_padding b = true ->
+  finish (mk_pstate [(e, [(k_platform, [pl]); (k_board, [b]); (k_framework, [t_arduino])] ++ more)] c o i) =
+  [(e, [(k_platform, pl); (k_board, b); (k_framework, t_arduino)] ++ map join_value more)].
+Proof.
+  intros Hpl Hb. unfold finish. cbn [p_secs map fst snd app join].
+  rewrite (no_padding_rstrip pl Hpl), (no_padding_rstrip b Hb). reflexivity.
+Qed.
+
+Theorem roundtrip pl b port libs :
+  value_ok pl = true -> value_ok b = true -> value_ok port = true -> forallb lib_ok libs = true ->
+  ini_read (render pl b port libs) = Some (expected_ini pl b port libs).
+Proof.
+  intros Hpl Hb Hport Hlibs.
+  rewrite ini_read_read, render_shape by assumption.
+  rewrite read_hdr by (assumption || apply sanitize_word).
+  unfold expected_ini, env_header.
+  pose proof (given_libs_real libs Hlibs) as Hu.
+  destruct (value_ok_parts port Hport) as [Pb Pp].
+  destruct (value_ok_parts pl Hpl) as [_ Ppl]. destruct (value_ok_parts b Hb) as [_ Pbd].
+  set (e := t_env ++ sanitize_env_name b).
+  destruct (given_libs libs) as [|n r] eqn:Eu.
+  - destruct port as [|c p].
+    + unfold tail_bare, st_hdr. fold e.
+      rewrite (read_option _ _ k_upload_port [] []) by reflexivity.
+      rewrite read_end, finish_hdr by assumption. reflexivity.
+    + unfold tail_port, st_hdr. fold e.
+      rewrite (read_option _ _ k_upload_port [c_sp] (c :: p)) by (assumption || reflexivity).
+      rewrite read_end, finish_hdr by assumption.
+      cbn [map]. unfold join_value. cbn [fst snd join]. rewrite (no_padding_rstrip _ Pp). reflexivity.
+  - set (u := n :: r) in *.
+    unfold tail_libs, st_hdr. fold e.
+    rewrite (read_option _ _ k_upload_port [c_sp] port) by (assumption || reflexivity).
+    rewrite read_blank by reflexivity.
+    rewrite (read_option _ _ k_lib_deps [] []) by reflexivity.
+    rewrite read_conts by (assumption || reflexivity).
+    rewrite <- app_assoc, finish_hdr by assumption.
+    assert (rstrip (join [c_nl] [port; []]) = port) as J1.
+    { (* upload_port: the blank line kept in the value is trimmed when the lines are joined *)
+      cbn [join]. rewrite app_nil_r, rstrip_spaces by reflexivity.
+      apply no_padding_rstrip. exact Pp. }
+    cbn [map app]. unfold join_value. cbn [fst snd]. rewrite J1.
+    match goal with |- context [(k_lib_deps, ?v)] => assert (v = c_nl :: join [c_nl] u) as J2 end.
+    { (* lib_deps: an empty first line, then the names *)
+      unfold u.
+      change (join [c_nl] ([] :: n :: r)) with (c_nl :: join [c_nl] (n :: r)).
+      apply last_nonspace_rstrip. apply (last_nonspace_app [c_nl]).
+      apply last_nonspace_join; [discriminate|].
+      intros m Hm. rewrite forallb_forall in Hu. apply (real_lib_facts m (Hu m Hm)). }
+    rewrite J2. reflexivity.
+Qed.
